@@ -140,6 +140,7 @@ class Engine:
         self.choices = []     # (label, value) of engine-level choices on this path
         self.nfork = 0
         self._str_seen = set()
+        self.obligations = []
         self.decided = {}     # atoms already decided on this path (the path condition only grows)
 
     # -- variables ----------------------------------------------------------------------
@@ -410,8 +411,14 @@ class Engine:
         key = tuple(sorted(s.t.items()))
         r = self.sqrts.get(key)
         if r is None:
-            if not bool(Atom(pneg(s.t), '<=')):
-                raise SymUnsupported('sqrt of a negative symbolic quantity')
+            k = self.known(Atom(pneg(s.t), '<='))
+            if k is False:
+                raise SymUnsupported('sqrt of a provably negative symbolic quantity')
+            if k is None:
+                # not decidable by the linearised path condition (e.g. an expanded sum of squares): no fork; the
+                # harness must discharge the obligation "argument >= 0" (see Engine.obligations)
+                self.obligations.append(('sqrt_arg_nonneg', s))
+                self.assume(Atom(pneg(s.t), '<='), tag='sqrt_arg>=0')
             r = self.sym(f'sqrt{len(VARS)}', 'real', 'aux')
             self.sqrts[key] = r
             self.assume(Atom(pneg(r.t), '<='), tag='sqrt>=0')
